@@ -42,6 +42,11 @@ def e2e(ctx, build, scratch, exe, cat, model, tier, looms=1):
     c = CFG[model]
     M = c["ch"]
     ncpu = 3
+
+    def runners(disp, r):
+        """threads shown as running on CPU row r by thread.prv (state row = Running, affinity row = that CPU)"""
+        return [t for t in (1, 2) if disp.get(("thread", t, 4), 0) == 1 and disp.get(("thread", t, 6), 0) == r]
+
     if looms == 1:
         spec = [{"name": "A", "cpus": [(i, i) for i in range(ncpu)], "procs": [{"pid": 100, "threads": [101, 102]}]}]
         cpurows = [1, 2, 3]
@@ -90,12 +95,18 @@ def e2e(ctx, build, scratch, exe, cat, model, tier, looms=1):
         depth = (5 if tier == "quick" else (8 if tier == "deep" else 7)) - (1 if looms > 1 else 0)
         tag = "e2e-%s%s" % (model, "" if looms == 1 else "-2looms")
         seen = {h0["hash"]}
-        frontier = [([], disp0, frozenset())]
+        ran0 = frozenset(r for r in cpurows if runners(disp0, r))
+        frontier = [([], disp0, (frozenset(), ran0))]
         nprobe = nacc = nchk = 0
         outcomes = set()
 
-        def check(disp, hist, ev, stale=()):
+        def check(disp, hist, ev, stale=(), ran=()):
             vals = [cpu_value(disp, r, c, stale) for r in cpurows]
+            # "replaced by the idle state when the CPU is not progressing": a physical CPU that had a running thread and has
+            # none now (by the thread timeline, independently of what cpu.prv says about it) contributes Resting
+            for i, r in enumerate(cpurows):
+                if r in ran and not runners(disp, r):
+                    vals[i] = {101}
             rows = [disp.get((c["pv"], r, c["bd"]), 0) for r in range(1, ncpu + 1)]
             # rows must be non-decreasing and a sorted choice of one allowed value per CPU
             ok = False
@@ -121,7 +132,7 @@ def e2e(ctx, build, scratch, exe, cat, model, tier, looms=1):
                     model, short_hist(prefix + hist + ([ev] if ev else [])), rows, [sorted(v) for v in vals]),
                     {"engine": "E3 emu_server -b", "model": model, "spec": spec, "history": [e.line() for e in prefix + hist], "probe": ev.line() if ev else None,
                      "rows": rows, "cpu_values": [sorted(v) for v in vals]}, {"kind": "breakdown-rows", "cause": cause})
-        check(disp0, [], None)
+        check(disp0, [], None, (), ran0)
         for lvl in range(depth):
             res = pool.expand_many([(prefix + h, alpha) for (h, d, st) in frontier])
             nxt = []
@@ -154,17 +165,19 @@ def e2e(ctx, build, scratch, exe, cat, model, tier, looms=1):
                                     {"kind": "breakdown-unneeded-update"})
                         d2[(n, row, ty)] = val
                     # per CPU: did the task type change after the subsystem last did?
+                    st, ran = st if isinstance(st, tuple) else (st, frozenset())
+                    ran2 = frozenset(set(ran) | set(rr for rr in cpurows if runners(d2, rr)))
                     st2 = set(st)
                     for rr in cpurows:
                         if d.get(("cpu", rr, c["ss"]), 0) != d2.get(("cpu", rr, c["ss"]), 0):
                             st2.discard(rr)
                         elif d.get(("cpu", rr, c["ty"]), 0) != d2.get(("cpu", rr, c["ty"]), 0):
                             st2.add(rr)
-                    check(d2, h, ev, st2)
+                    check(d2, h, ev, st2, ran2)
                     nchk += 1
                     if r.hash not in seen:
                         seen.add(r.hash)
-                        nxt.append((h + [ev], d2, frozenset(st2)))
+                        nxt.append((h + [ev], d2, (frozenset(st2), ran2)))
                 if ctx.too_many():
                     break
             frontier = nxt
